@@ -8,6 +8,7 @@ import (
 	"connectrpc.com/vanguard"
 	"google.golang.org/protobuf/proto"
 
+	"connectrpc.com/vanguard/verifharness/drive"
 	"connectrpc.com/vanguard/verifharness/wire"
 	"connectrpc.com/vanguard/verifharness/world"
 	"connectrpc.com/vanguard/verifharness/xplor"
@@ -136,7 +137,38 @@ func init() {
 				}
 			}
 			call := &mxCall{Base: b, ReqMsgs: req, ReqFlags: reqFlags, Accept: accept, RespMsgs: resp, RespFlags: respFlags, RespComp: respComp}
+			// a request stream that stops inside a message must never yield a successful RPC
+			cutKind := 0
+			if b.Client.form.Enveloped() && len(req) > 0 {
+				cutKind = c.Choose("req-truncated", 4) // 0 intact, 1 inside last envelope, 2 right after it, 3 inside its payload
+			}
+			if cutKind > 0 {
+				call.SpecMut = func(s *drive.ReqSpec) {
+					offs := frameOffsets(s.Body.Data)
+					last := offs[len(offs)-1]
+					at := []int{0, last + 2, last + 5, last + 5 + (len(s.Body.Data)-last-5+1)/2}[cutKind]
+					if at >= len(s.Body.Data) {
+						cutKind = 0 // (the last message is empty: nothing to cut inside it)
+						return
+					}
+					s.Body.Data = s.Body.Data[:at]
+				}
+			}
 			obs := call.run()
+			if cutKind > 0 && obs.Err == nil && obs.Ex.Panic == nil {
+				c.Attr("truncated", "true")
+				if obs.CResp.OK() {
+					c.Fail("C01.partial-request-succeeded", "the request stream ended inside message %d, yet the RPC succeeded\n%s", len(req)-1, b.key)
+				} else {
+					c.Note("failure")
+					c.Outcome("truncated-rejected")
+				}
+				flatBroken := obs.BReq != nil && !obs.BReq.Form.Enveloped() && obs.Backend.Seen.ReadErr != "" // told its body is broken
+				if got := decodeAll(obs.BReqCodec(), world.MsgDesc(), obs.BReqMsgs(), nil); obs.Backend.Calls > 0 && obs.BReq != nil && obs.BReq.Form != wire.REST && !flatBroken && !msgsPrefix(dropTrailingNil(got), req[:len(req)-1]) {
+					c.Fail("C01.request-altered", "request stream cut inside message %d; backend was handed %s\n%s", len(req)-1, renderMsgs(got), b.key)
+				}
+				return
+			}
 			if obs.Err != nil {
 				c.Fail("harness.setup", "%v", obs.Err)
 				return
@@ -148,6 +180,9 @@ func init() {
 			if obs.Ex.Panic != nil {
 				c.Fail("C01.panic", "ServeHTTP panicked: %s\n%s", obs.Ex.Panic.Value, stackTop(obs.Ex.Panic.Stack))
 				return
+			}
+			if c.Replay {
+				fmt.Fprintf(os.Stderr, "REPLAY backend-body=%x\n backend-response-body=%x\n client-head=%v\n client-body=%x\n client-trailers=%v\n", obs.Backend.Seen.Body, obs.SrvRespBody(), obs.Ex.Rec.Snapshot, obs.Ex.Rec.BodyBytes.Bytes(), obs.Ex.Rec.Trailers)
 			}
 			c01Judge(c, obs, req, resp)
 		}
@@ -184,11 +219,11 @@ func c01Judge(c *xplor.Ctx, obs *mxObs, req, resp []proto.Message) {
 		case wire.REST:
 			if b.Client.method == "Unary" {
 				judgeReq = true
-				got = decodeAll("json", world.MsgDesc(), obs.BReq.Msgs)
+				got = decodeAll("json", world.MsgDesc(), obs.BReq.Msgs, obs.BReq.MsgBad)
 			}
 		default:
 			judgeReq = true
-			got = decodeAll(obs.BReq.Codec, world.MsgDesc(), obs.BReq.Msgs)
+			got = decodeAll(obs.BReq.Codec, world.MsgDesc(), obs.BReq.Msgs, obs.BReq.MsgBad)
 			if obs.BReq.Form.Enveloped() == false && b.Client.form.Enveloped() && len(req) == 0 {
 				judgeReq = false // empty stream toward a flat protocol: not a message question
 			}
@@ -220,7 +255,7 @@ func c01Judge(c *xplor.Ctx, obs *mxObs, req, resp []proto.Message) {
 			if b.Client.form == wire.REST {
 				codec = "json"
 			}
-			cgot = decodeAll(codec, world.MsgDesc(), cr.Msgs)
+			cgot = decodeAll(codec, world.MsgDesc(), cr.Msgs, cr.MsgBad)
 			ok := msgsPrefix(cgot, resp)
 			if n := len(cgot); !ok && n > 0 && cgot[n-1] == nil && msgsPrefix(cgot[:n-1], resp) {
 				ok = true
@@ -244,7 +279,7 @@ func c01Judge(c *xplor.Ctx, obs *mxObs, req, resp []proto.Message) {
 	if b.Client.form == wire.REST {
 		codec = "json"
 	}
-	cgot = decodeAll(codec, world.MsgDesc(), cr.Msgs)
+	cgot = decodeAll(codec, world.MsgDesc(), cr.Msgs, cr.MsgBad)
 	if be.Calls == 0 {
 		c.Fail("C01.success-without-backend", "client observed success but no backend was invoked\n%s", desc())
 		return
@@ -268,4 +303,11 @@ func attrsOf(c *xplor.Ctx) []string {
 		}
 	}
 	return out
+}
+
+func dropTrailingNil(ms []proto.Message) []proto.Message {
+	for len(ms) > 0 && ms[len(ms)-1] == nil {
+		ms = ms[:len(ms)-1]
+	}
+	return ms
 }
